@@ -9,6 +9,7 @@ Definition call := (move * Z * bool)%type.     (* move, delay in ms, accepted by
 Inductive obs :=
 | OBot (b : bview) (v : option pview) (calls : list call) (autojoin : nat)
 | OPlayer (st : pstatus) (action_time : Z) (v : pview) (calls : list call)
+| OSuperseded (v : pview) (calls : list call)     (* a running player's wait, called off by a newer request before the thinking time was over *)
 | OObserver (system filtered : bool) (pre view : option ogame) (engine_same others_same : bool).
 Record case := { ac_bots_only : bool; ac_obs : list obs; ac_hands : nat; ac_settled : nat; ac_calls : nat; ac_refused : nat; ac_noted : bool }.
 
@@ -82,8 +83,11 @@ Definition obs_diag (o : obs) : list (nat * nat) :=
           ++ (match m' with MvPay c => if amount_ok v m' then [] else [(4%nat, 2%nat)] | _ => [] end)                 (* pays something else than the posted size *)
           ++ (if (d * 1000 <=? ms + 20) && (ms <=? d * 1000 + 450) then [] else [(4%nat, 3%nat)])                       (* too early / not at once *)
       | None, _ :: _ => [(4%nat, 4%nat)]
-      | Some _, _ => [(2%nat, 4%nat)]
+      | Some (m, d), _ =>
+          (* not exactly one call: something was submitted before the thinking time was over, or nothing at all *)
+          if existsb (fun c => match c with (_, ms, _) => ms + 20 <? d * 1000 end) calls then [(4%nat, 3%nat)] else [(2%nat, 4%nat)]
       end
+  | OSuperseded v calls => match calls with [] => [] | _ => [(4%nat, 3%nat)] end      (* acted although the wait was called off *)
   | OObserver system filtered pre view same others =>
       (if same then [] else [(5%nat, 3%nat)])                                                                          (* the engine's own table changed *)
       ++ (if others then [] else [(5%nat, 4%nat)])                                                                     (* another actor's view was affected *)
